@@ -132,7 +132,7 @@ func directedReverse(n int) input {
 func gen(r *hx.Rand, tier string) []json.RawMessage {
 	n := 240
 	if tier == "thorough" {
-		n = 8000
+		n = 3000
 	}
 	out := []json.RawMessage{hx.J(directedReverse(4)), hx.J(directedReverse(7))}
 	// full Top outgoing buffer while the head is complete (ID consumed per retry)
